@@ -318,10 +318,18 @@ class M:
             # an empty value written to an empty dictionary still makes it valid (a tick of the empty collection)
             self.mark(t)
             return True
+        if k == "sets":
+            # whole-set write: the listed elements are the new contents. Also an empty value written to an empty (or
+            # never written) set is a write: the set becomes valid and ticks with an empty delta
+            self.value = set(op["v"])
+            self.mark(t)
+            return True
         if k == "setv":
             # whole-value write of a partially populated bundle value: only the populated leaves are written
             if self.k == "TS":
                 return self.apply({"k": "set", "v": op["v"]}, t)
+            if self.k == "TSS":
+                return self.apply({"k": "sets", "v": op["v"]}, t)
             eff = False
             for i, spec in op["v"].items():
                 if self.value[int(i)].apply({"k": "setv", "v": spec}, t):
@@ -364,6 +372,12 @@ def gen_op(draw, m: M, t, opts):
         if opts.get("cancel", True) and m.valid and not m.value and draw(st.integers(0, 2)) == 0:
             # clear() of a set that is already empty: a mutation call that changes nothing and must leave no trace
             op = {"k": "S", "ops": [["clear"]]}
+            m.apply(op, t)
+            return op
+        if opts.get("whole") and m.s[1] == "int" and not m.touched() and draw(st.integers(0, 3)) == 0:
+            # whole-set write (copy or move flavour) as the first operation on the set in a cycle; often the empty set
+            new = [] if draw(st.integers(0, 2)) == 0 else sorted(draw(st.sets(st.integers(0, opts.get("keys", 8)), max_size=4)))
+            op = {"k": "sets", "v": new, "move": draw(st.booleans())}
             m.apply(op, t)
             return op
         nmax = 4 if opts.get("multi", True) else 1
@@ -505,6 +519,8 @@ def _partial(draw, schema):
             out[str(i)] = _scalar(draw, cs[1])
         elif cs[0] == "TSB" and draw(st.integers(0, 2)) != 0:
             out[str(i)] = _partial(draw, cs)
+        elif cs[0] == "TSS" and cs[1] == "int" and draw(st.integers(0, 2)) != 0:
+            out[str(i)] = [] if draw(st.booleans()) else sorted(draw(st.sets(st.integers(0, 8), max_size=3)))
     return out
 
 
